@@ -119,8 +119,9 @@ class History:
         self.K = r.randint(8, 30) if big else r.randint(1, 8)
         if self.stress:
             self.K = 2 * len(self.users) + r.choice([0, 1, 2])
-            if self.twin and r.random() < 0.35:
-                # dense sale: most tickets win, so the leftover re-draws often land on winners (no progress in that call)
+            if self.twin and r.random() < 0.3:
+                # dense sale: most (not all) tickets win, so the leftover re-draws often land on winners (no progress in that call)
+                self.dense = True
                 self.K = 4 * len(self.users) + r.choice([0, 1, 2])
         self.round = r.randint(0, 40)
         self.epoch = r.randint(0, 5)
@@ -204,6 +205,8 @@ class History:
             en = r.choice([0, 0, 1, 2, 3])
             if self.stress:
                 st, en = r.randint(0, self.minconf + 2), r.randint(1, 4)
+            if getattr(self, 'dense', False):
+                st, en = self.minconf + r.randint(0, 2), r.randint(3, 5)     # 5-10 tickets each: more tickets than winners
             return [u, st, en, int(r.random() < 0.35)]
         if v == 'gt2':
             cnt = r.choice([0, 1, 2, 3, 4, 5, 6, 6, 12 if big else 3])
@@ -464,6 +467,9 @@ class History:
             return self.targets[u]
         r = self.rng
         al = self.alloc(u)
+        if getattr(self, 'dense', False) and r.random() < 0.7:
+            self.targets[u] = al
+            return al
         cands = [al, al, max(0, al - 1), 1]
         ut = self.view('utStatus', u)
         if self.v in V1:
@@ -661,6 +667,8 @@ class History:
             b = self.budget() if n < 40 else '-'
             if ep == 'extra' and n < 40 and r.random() < 0.5:
                 b = r.choice([0, 0, 1, 1, 2])      # the third step has two phases: many short calls
+            if ep == 'extra' and n < 40 and self.twin and self.v in V1 and r.random() < 0.5:
+                b = 0                               # one iteration per call: a call may consist of a single re-draw
             rec = self.call(c, ep, budget=b)
             if rec['status'] == 'ok':
                 if rec['ret'] == [0]:
